@@ -291,6 +291,11 @@ theorem get_delivery_step_order :
     Gen.Site.putDelivery = ["_remove_expired", "monotonic", "set:_delivery_store"] := by
   decide
 
+/-- TIE TO THE SOURCE (regenerated on every run, Gen/Site.lean): `_handle_response` awaits `put_delivery` directly (no task, time-out or shield): the SMSC id is recorded before the Receiver reads the next PDU, which may be the receipt naming it -/
+theorem response_handler_awaits_directly :
+    Gen.Site.handleResponse.filter (fun x => x ∈ ["put_delivery", "_socket_operation", "wait_for", "create_task", "shield"]) = ["put_delivery"] := by
+  decide
+
 end SmppVerif.Props.C02
 
 #print axioms SmppVerif.Props.C02.unknown_id_empty
@@ -308,3 +313,4 @@ end SmppVerif.Props.C02
 #print axioms SmppVerif.Props.C02.picked_is_first_when_none_fails
 #print axioms SmppVerif.Props.C02.handle_request_step_order
 #print axioms SmppVerif.Props.C02.get_delivery_step_order
+#print axioms SmppVerif.Props.C02.response_handler_awaits_directly
